@@ -197,7 +197,50 @@ def placeholder_resolved(ctx: Ctx, rule: str) -> None:
                    f"({key}); the node then has a pending status forever")
 
 
+def wait_budget(ctx: Ctx, rule: str) -> None:
+    """How long a worker bounces off an occupied node before it may join in: the node's whole retry budget
+    (test_timeout x max_tries), polled every permille of it (at least 0.1 s)."""
+    fn = ctx.repo.func(T.TOT)
+    ctx.touch(T.TOT)
+    from ..canon import inline_locals
+
+    d = {}
+    for s_ in ast.walk(fn.node):
+        if isinstance(s_, ast.Assign) and len(s_.targets) == 1 and isinstance(s_.targets[0], ast.Name):
+            d.setdefault(s_.targets[0].id, []).append(s_.value)
+    ok = False
+    td = d.get("test_duration", [])
+    if len(td) == 1 and isinstance(td[0], ast.BinOp) and isinstance(td[0].op, ast.Mult):
+        factors = sorted(ast.unparse(x) for x in (td[0].left, td[0].right))
+        ok = factors == sorted(["next.params.get_numeric('test_timeout', 3600)", "next.params.get_numeric('max_tries', 1)"])
+    ot = d.get("occupied_timeout", [])
+    ok = ok and len(ot) == 1 and ast.unparse(ot[0]) == "round(max(test_duration / 1000, 0.1), 2)"
+    esc = [c for c in ast.walk(fn.node) if isinstance(c, ast.Compare) and ast.unparse(c) in ("occupied_wait > test_duration", "test_duration < occupied_wait")]
+    ok = ok and len(esc) == 1
+    ctx.record(rule, "CONST", T.TOT, "occupied-wait budget = test_timeout (3600) x max_tries (1); poll interval = max(budget / 1000, 0.1) s; re-entrancy only after waiting longer than the budget", ok,
+               {"test_duration": [ast.unparse(x) for x in td]}, "" if ok else "the time a worker waits at an occupied node before joining it changed (a waiter may join while the running worker is still within its retry budget)")
+
+
+def sync_errors(ctx: Ctx, rule: str) -> None:
+    """A failing sync / cleanup request is reported, never raised: an exception out of reverse_node would end the worker's
+    traversal and leave every remaining test without a result."""
+    fref = "cartgraph/node.py:TestNode.sync_states"
+    fn = ctx.repo.func(fref)
+    ctx.touch(fref)
+    tries = [t for t in ast.walk(fn.node) if isinstance(t, ast.Try) and any(call_name(c) == "run_subcontrol" for s_ in t.body for c in calls_in(s_))]
+    ok = len(tries) == 1
+    if ok:
+        hs = tries[0].handlers
+        ok = len(hs) == 1 and hs[0].type is not None and ast.unparse(hs[0].type).endswith("ShellCmdError") and not any(isinstance(x, (ast.Raise, ast.Return)) for x in ast.walk(hs[0]))
+    ctx.record(rule, "TABLE", fref, "the sync/cleanup request: ShellCmdError -> logged, nothing raised", ok, {}, "" if ok else "a failed state sync or cleanup raises out of sync_states: the traversal of that worker ends and the remaining tests never run")
+
+
 def run(ctx: Ctx) -> None:
+    ctx.call(wait_budget, "14")
+    ctx.call(sync_errors, "15")
+    from .c10 import creation_ids
+
+    ctx.call(creation_ids, "16")
     ctx.call(loop_progress, "1")
     ctx.call(N.pick_agreement, "2", "setup")
     ctx.call(N.pick_agreement, "2c", "cleanup")
@@ -236,6 +279,8 @@ G = "cartgraph/graph.py"
 NODE = "cartgraph/node.py"
 R = "plugins/runner.py"
 MUTANTS = [
+    ("wait-budget-one-timeout", G, "                test_duration = next.params.get_numeric(\n                    \"test_timeout\", 3600\n                ) * next.params.get_numeric(\"max_tries\", 1)", "                test_duration = next.params.get_numeric(\"test_timeout\", 3600)", "14"),
+    ("sync-failure-raises", NODE, "            except ShellCmdError as error:\n                logging.warning(\n                    f\"{action} {self} for {self.started_worker.id} could not be completed \"", "            except ShellCmdError as error:\n                if \"AssertionError\" not in error.output:\n                    raise RuntimeError(\"sync failed\")\n                logging.warning(\n                    f\"{action} {self} for {self.started_worker.id} could not be completed \"", "15"),
     ("shared-results-own-only", NODE, "        results = list(self.results)\n        for bridged_node in self.bridged_nodes:\n            results += bridged_node.results\n        return results",
      "        results = list(self.results)\n        return results", "12v"),
     ("finished-workers-skip-self", NODE, "        if self.finished_worker is not None:\n            workers.add(self.finished_worker)\n        for bridged_node in self.bridged_nodes:\n            if bridged_node.finished_worker",
